@@ -608,12 +608,6 @@ def _exec_params(scn):
     except mujoco.FatalError as e:
       return dict(ok=True, nontrivial=False, outcome="mujoco_fatal", info=str(e)[:200], key=util.sha(scn))
     refs.append(mjd)
-  if scn["dof"] == "trilinear" and mjm.nflexvert:
-    # a vertex strictly inside a cell of the interpolation grid depends on all 8 corner nodes (one on a cell face on <= 4)
-    v0 = np.asarray(mjm.flex_vert0).reshape(-1, 3)
-    inside = lambda v: int(np.sum((v0[v] > 1e-6) & (v0[v] < 1 - 1e-6))) == 3
-    if any(inside(int(x)) for r in refs for k in range(r.ncon) for x in r.contact[k].vert if x >= 0):
-      tag += ":contact_vertex_inside_cell"
   d = mjw.make_data(mjm, nworld=2, njmax=max(128, 3 * max(r.nefc for r in refs) + 64), nconmax=max(4096, 8 * max(r.ncon for r in refs) + 64))
   util.copy_state(refs[0], d, world=0)
   util.copy_state(refs[1], d, world=1)
